@@ -73,6 +73,13 @@ def catalogue(thorough):
                          'k': 2})
             cfgs.append({'n': 3, 'profile': prof, 'nx': 3, 'ny': 3, 'thresh': 0.5, 'tail': tail, 'paired': True,
                          'k': 2})
+    # the progress-printing mode is the same computation
+    for prof in ('PPP', 'PNZ', 'PSC', 'NNS', 'PZC'):
+        for tail in TAILS:
+            cfgs.append({'n': 3, 'profile': prof, 'nx': 2, 'ny': 3, 'thresh': 0.5, 'tail': tail, 'paired': False,
+                         'k': 2, 'verbose': True})
+            cfgs.append({'n': 3, 'profile': prof, 'nx': 3, 'ny': 3, 'thresh': 0.5, 'tail': tail, 'paired': True,
+                         'k': 2, 'verbose': True})
     four = ['PPZZNN', 'PPPZZZ', 'PZPZSZ', 'PNCZSP', 'SSSSSS', 'PZZZZP', 'NNZZCC', 'PPNNZZ']
     if thorough:
         four += [''.join(p) for p in itertools.product('PNZ', repeat=6)][::5]
@@ -258,7 +265,7 @@ def explore(cfg):
 
     def call(rng):
         return bct.nbs_bct(x.copy(), y.copy(), cfg['thresh'], k=cfg['k'], tail=cfg['tail'], paired=cfg['paired'],
-                           seed=rng)
+                           verbose=bool(cfg.get('verbose', False)), seed=rng)
     nulls = set()
     ex = Explorer(call, vec_unit_points=(0.25, 0.75), max_executions=100000)
 
@@ -350,7 +357,7 @@ def replay(rec):
 
     def call(rng):
         return bct.nbs_bct(x.copy(), y.copy(), cfg['thresh'], k=cfg['k'], tail=cfg['tail'], paired=cfg['paired'],
-                           seed=rng)
+                           verbose=bool(cfg.get('verbose', False)), seed=rng)
     with quiet():
         status, value, _ = replay_answers(call, case['answers'], vec_unit_points=(0.25, 0.75))
     judge(t, cfg, status, value, list(getattr(replay_answers, 'last_values', [])), lambda: case)
